@@ -188,6 +188,13 @@ func judgeC17Raw(c c11Case) (string, string) {
 		return "walk-failed", err.Error()
 	}
 	listed = rerootLinks(listed)
+	if c.Under == "maprewrite" {
+		for _, st := range listed {
+			if st.Uid != 4242 || st.Gid != 4243 || st.ModTime != 1_000_000_000_000_000_000 {
+				return "map-rewrite-lost", fmt.Sprintf("%q is reported with uid=%d gid=%d mtime=%d although the view's map function rewrites every entry to 4242:4243 @1e18", st.Path, st.Uid, st.Gid, st.ModTime)
+			}
+		}
+	}
 	var buf bytes.Buffer
 	if err := fsutil.WriteTar(context.Background(), view, &buf); err != nil {
 		// the walk lists a file that the same view refuses to open (known dependency finding, see C11): the member's
@@ -210,6 +217,21 @@ func judgeC17Raw(c c11Case) (string, string) {
 		}
 		if !bytes.Equal(b2.Bytes(), buf.Bytes()) {
 			return "short-reads:archive-differs", fmt.Sprintf("readers deliver at most %d bytes per call: the archive differs from the one written from full reads (%d vs %d bytes)", n, b2.Len(), buf.Len())
+		}
+	}
+	// a file that cannot be opened when its turn comes (gone since the walk listed it): the export fails, it does not
+	// hand back an archive that silently lacks the file - and whatever follows it in its directory
+	{
+		tried := 0
+		for _, st := range listed {
+			if st.Mode&uint32(os.ModeType) != 0 || st.Size == 0 || st.Linkname != "" || tried >= 3 {
+				continue
+			}
+			tried++
+			var b3 bytes.Buffer
+			if err := fsutil.WriteTar(context.Background(), goneFS{view, st.Path}, &b3); err == nil {
+				return "open-failure-swallowed", fmt.Sprintf("%q cannot be opened (not-exist error) but WriteTar returned nil (%d bytes of archive, the complete one has %d)", st.Path, b3.Len(), buf.Len())
+			}
 		}
 	}
 	ms, err := readTar(buf.Bytes())
@@ -299,6 +321,9 @@ func judgeC17Raw(c c11Case) (string, string) {
 			if pre != "" && n.Kind == fsmodel.Symlink && strings.HasPrefix(n.Link, "/") {
 				n.Link = "/" + strings.TrimSuffix(pre, "/") + n.Link // a composite view re-roots absolute targets
 			}
+		}
+		if c.Under == "maprewrite" {
+			n.UID, n.GID, n.Mtime = 4242, 4243, 1_000_000_000_000_000_000 // the view is the tree as its map function rewrote it
 		}
 		n.Mtime = n.Mtime / 1e9 * 1e9
 		want = append(want, n)
@@ -391,7 +416,7 @@ func c17Cases(tier string) []c11Case {
 				if tier != "thorough" && len(in)+len(ex) > 2 {
 					continue
 				}
-				for _, under := range []string{"disk", "mem"} {
+				for _, under := range []string{"disk", "mem", "maprewrite"} {
 					out = append(out, c11Case{Tree: deep, Include: in, Exclude: ex, Under: under})
 				}
 			}
@@ -608,4 +633,17 @@ func judgeC17(c c11Case) (k, m string) {
 		}
 	}()
 	return judgeC17Raw(c)
+}
+
+// goneFS: one path of the view fails to open with a not-exist error.
+type goneFS struct {
+	fsutil.FS
+	gone string
+}
+
+func (g goneFS) Open(p string) (io.ReadCloser, error) {
+	if filepath.Clean("/"+p) == filepath.Clean("/"+g.gone) {
+		return nil, &os.PathError{Op: "open", Path: p, Err: os.ErrNotExist}
+	}
+	return g.FS.Open(p)
 }
